@@ -454,6 +454,26 @@ func c13NothingUrgent(sc *ccScenario, plan *c13Plan) bool {
 	return any
 }
 
+// c13LocalDustFail reports whether msg ("idx:false") is the fail-back of an
+// offered HTLC that is dust on our own commitment.
+func c13LocalDustFail(sc *ccScenario, msg string) bool {
+	var idx uint64
+	var settle bool
+	if _, err := fmt.Sscanf(msg, "%d:%t", &idx, &settle); err != nil ||
+		settle {
+
+		return false
+	}
+	for i := range sc.HTLCs {
+		x := &sc.HTLCs[i]
+		if !x.Incoming && x.Idx == idx && x.On[ccL] && x.Dust[ccL] {
+			return true
+		}
+	}
+
+	return false
+}
+
 func c13GenPlan(rt *rapid.T, sc *ccScenario) *c13Plan {
 	confs := []int{ccR, ccR, ccL, ccL, ccBreach, ccCoop}
 	if sc.HasPending {
@@ -554,22 +574,48 @@ func c13Compare(base, run *c13Outcome, sc *ccScenario, plan *c13Plan,
 				"restarted %v", p.name, oa, ob)
 		}
 	}
+	// A restarted arbitrator evaluates the chain trigger at the current
+	// height before it can see the close event, so one run may broadcast
+	// our commitment where the other does not. lnd fails HTLCs that are
+	// dust on OUR commitment at that moment (documented trade-off, C12
+	// label prefail_then_output); such fail-backs are not held against
+	// the restart.
+	tradeoff := base.broadcast != run.broadcast
 	oa, ob := c13Diff(base.msgs, run.msgs)
 	if len(oa)+len(ob) != 0 {
 		k1 := (base.broadcast || run.broadcast) &&
 			ccKnown(c12KeyDustAfterBroadcast)
+		usedK1 := false
 		for _, m := range append(append([]string(nil), oa...), ob...) {
-			if !k1 || !c13K1Class(sc, plan, m) {
+			switch {
+			case tradeoff && c13LocalDustFail(sc, m):
+				st.Count("tolerated_broadcast_dust_tradeoff", 1)
+			case k1 && c13K1Class(sc, plan, m):
+				usedK1 = true
+			default:
 				return fmt.Errorf("upstream resolutions differ: only "+
 					"uninterrupted %v, only restarted %v", oa, ob)
 			}
 		}
-		st.Known(c12KeyDustAfterBroadcast)
-		st.Count("excluded_known", 1)
+		if usedK1 {
+			st.Known(c12KeyDustAfterBroadcast)
+			st.Count("excluded_known", 1)
+		}
 	}
-	if len(run.contradiction) != 0 && len(base.contradiction) == 0 {
-		return fmt.Errorf("HTLC(s) %v both settled and failed upstream",
-			run.contradiction)
+	baseContra := map[uint64]bool{}
+	for _, i := range base.contradiction {
+		baseContra[i] = true
+	}
+	for _, i := range run.contradiction {
+		if baseContra[i] {
+			continue
+		}
+		if tradeoff && c13LocalDustFail(sc, fmt.Sprintf("%d:false", i)) {
+			continue
+		}
+
+		return fmt.Errorf("HTLC #%d both settled and failed upstream "+
+			"(not so in the uninterrupted run)", i)
 	}
 	for _, n := range run.notifyUnres {
 		if n != 0 {
